@@ -33,7 +33,7 @@ SPECIAL = ["FIN", "RST", "CLOSE"]
 def required_counters(tier):
     need = ["faults-injected", "fault-surfaced-in:worker", "fault-surfaced-in:io", "probe-served", "bystander-intact",
             "placements:recv", "placements:send", "placements:accept", "placements:getsockopt", "placements:setsockopt",
-            "placements:setblocking", "pairs", "closed-once"]
+            "placements:setblocking", "pairs", "closed-once", "urgent-data-runs"]
     return need
 
 
@@ -71,6 +71,29 @@ BASES = [
          {"requests": [{"m": "POST", "body": 200, "expect": True, "n": 100, "k": "cl"}, {"n": 10, "k": "cl", "close": True}], "sndbuf": 1024,
           "waiting": True},
          {"requests": [{"n": 50, "k": "cl"}, {"n": 300, "k": "gen", "w": 100}], "sndbuf": 1024, "delay": 0.2},
+     ], "bystander": 1},
+    # TCP urgent data: one out-of-band byte before, inside and after a request (nothing ever reads it)
+    {"adj": {"threads": 1, "channel_request_lookahead": 0, "send_bytes": 1}, "sndbuf": 1024, "fault_free": True,
+     "conns": [
+         {"requests": [{"n": 100, "k": "cl"}, {"n": 10, "k": "cl"}], "sndbuf": 1024, "plan": [[0, "oob", 0]], "read_to_eof": True},
+         {"requests": [{"n": 50, "k": "cl"}, {"n": 300, "k": "gen", "w": 100}], "sndbuf": 1024, "delay": 0.2},
+     ], "bystander": 1},
+    {"adj": {"threads": 1, "channel_request_lookahead": 0, "send_bytes": 1, "asyncore_use_poll": True}, "sndbuf": 1024, "fault_free": True,
+     "conns": [
+         {"requests": [{"n": 100, "k": "cl"}, {"n": 10, "k": "cl"}], "sndbuf": 1024, "plan": [[30, "oob", 0]], "read_to_eof": True},
+         {"requests": [{"n": 50, "k": "cl"}], "sndbuf": 1024, "delay": 0.2},
+     ], "bystander": 1},
+    {"adj": {"threads": 1, "channel_request_lookahead": 0, "send_bytes": 1}, "sndbuf": 1024, "fault_free": True,
+     "conns": [
+         {"requests": [{"n": 100, "k": "cl"}], "sndbuf": 1024, "plan": [[10000, "oob", 0]], "read_to_eof": True},
+         {"requests": [{"n": 50, "k": "cl"}], "sndbuf": 1024, "delay": 0.2},
+     ], "bystander": 1},
+    # urgent data and a FIN in the same poll round: the read pass tears the channel down, the
+    # exceptional pass must cope with its descriptor having left the map
+    {"adj": {"threads": 1, "channel_request_lookahead": 0, "send_bytes": 1}, "sndbuf": 1024, "fault_free": True,
+     "conns": [
+         {"requests": [], "sndbuf": 1024, "plan": [[0, "oob", 0]], "then_close": True},
+         {"requests": [{"n": 50, "k": "cl"}], "sndbuf": 1024, "delay": 0.2},
      ], "bystander": 1},
     # errors are not to be logged (log_socket_errors off): containment must not depend on the logging switch
     {"adj": {"threads": 1, "channel_request_lookahead": 1, "send_bytes": 1, "log_socket_errors": False, "outbuf_high_watermark": 512}, "sndbuf": 512,
@@ -154,6 +177,9 @@ def judge(scn, o, faults, acc):
     # ---- the loop and the workers are alive, the listener is still there
     if not w.io_alive():
         out.append(("io-thread-died", "the I/O loop ended: " + getattr(w, "loop_error", "?")))
+    if getattr(o, "reason", None) == "spinning" or o.counters.get("clock-advances-while-spinning"):
+        out.append(("io-loop-spins", "the I/O loop turns without any event in the world (a busy loop: every pass finds the same "
+                    "descriptor ready and nothing is done about it)"))
     dead = [t.name for t in w.worker_threads if t.state == "done"]
     if dead:
         out.append(("worker-died", f"worker thread(s) {dead} ended"))
@@ -321,6 +347,14 @@ def run_shard(spec):
                 pl.append(((("L", 0), "accept", n), e))
         if scn.get("setup_only"):
             pl = [x for x in pl if x[0][1] in ("getsockopt", "setsockopt", "setblocking", "accept")]
+        if scn.get("fault_free"):
+            # the client behaviour itself is the hostile part: no injected fault, a handful of schedules
+            if spec["part"] == 0:
+                for sch in range(6):
+                    strat = {"kind": "np"} if sch == 0 else {"kind": "random", "seed": 77 + sch, "p": [0.02, 0.1, 0.3][sch % 3]}
+                    run_one(acc, scn, strat, {}, f"{spec['base']}|no-fault|{sch}")
+                    acc.count("urgent-data-runs")
+            pl = []
         rng = random.Random(spec["seed"] + spec["part"])
         mine = pl[spec["part"] :: spec["parts"]]
         for i, (k, v) in enumerate(mine):
@@ -369,7 +403,7 @@ def run_shard(spec):
     else:
         rng = random.Random(spec["seed"])
         for _ in range(spec["n"]):
-            b = rng.choice([0, 1, 2, 3, 4, 5])
+            b = rng.choice([0, 1, 2, 3, 4, 9])  # (the urgent-data and set-up-only bases are not used for fault pairs)
             scn = BASES[b]
             targets = [i for i in range(len(scn["conns"])) if i != scn.get("bystander")]
             faults = {}
